@@ -6,7 +6,7 @@
    Both are REFUTED when the extended operators are on (QuoteMeta/HasMeta ignore them; witnesses below,
    known finding KF-C18-1), and hold without them as proved here. *)
 From Verif Require Import Base.Str Pattern.Regex Pattern.Translate Pattern.GlobSpec Pattern.Fragment
-  Proofs.TranslateProofs Proofs.MetaProofs.
+  Proofs.TranslateProofs Proofs.MetaProofs Proofs.OpenBracketProofs.
 
 (* QuoteMeta(s) matches s and nothing else: every string without NUL, every candidate t, no extended operators *)
 Theorem C18_quotemeta_matches_only_self : forall wc s t, no_nul s ->
@@ -44,3 +44,16 @@ Theorem C18_hasmeta_ext_refuted :
      glob_spec no_wide f_extglob p t1 = true /\ glob_spec no_wide f_extglob p t2 = true.
 Proof. exact hasmeta_ext_refuted. Qed.
 Print Assumptions C18_hasmeta_ext_refuted.
+
+(* HasMeta false => at most one string, for EVERY pattern that contains no "]" at all — in particular patterns with
+   an open "[" (which bash takes literally or fails on), a trailing backslash, any escapes; no other side condition.
+   PARTIAL only in that a HasMeta-false pattern may also contain escaped "\]" after a "[", which is not covered. *)
+Theorem C18_hasmeta_false_single_open_bracket_partial : forall wc p t, ~ In 93%N p -> has_meta p = false ->
+  glob_spec wc f_plain p t = true -> t = unescape p.
+Proof. exact hasmeta_false_single_norbrk. Qed.
+Print Assumptions C18_hasmeta_false_single_open_bracket_partial.
+
+Example C18_open_bracket_nonvacuous :
+  ~ In 93%N [97; 91; 98; 92; 42] /\ has_meta [97; 91; 98; 92; 42] = false /\
+  glob_spec no_wide f_plain [97; 91; 98; 92; 42] [97; 91; 98; 42] = true /\ unescape [97; 91; 98; 92; 42] = [97; 91; 98; 42].
+Proof. split; [intros H; simpl in H; repeat destruct H as [H|H]; try discriminate; auto|]. repeat split; vm_compute; reflexivity. Qed.
